@@ -165,6 +165,10 @@ def oracle(case, io):
             return "two labels share a TeX text macro: %r" % (io["text_names"][:8],)
         if len(io["svg_dots"]) != n or len(io["tex_dots"]) != n:
             return "dots: %d in the SVG, %d in TeX, %d labels" % (len(io["svg_dots"]), len(io["tex_dots"]), n)
+        import re as _re
+        for p_, h in io["tex_dots"]:
+            if not _re.fullmatch(r"[0-9A-F]{6}", h or ""):
+                return "the TeX colour of the dot at %s is %r, not six upper-case hex digits" % (p_, h)
         a = sorted((p, tuple(c)) for p, c in io["svg_dots"])
         b = sorted((p, (int(h[0:2], 16), int(h[2:4], 16), int(h[4:6], 16))) for p, h in io["tex_dots"])
         if a != b:
